@@ -12,21 +12,21 @@ const (
 )
 
 type Var struct {
-	Name     string
-	Kind     VarKind
-	Ty       *Type // store type (var) or value type (let/const/param/override)
-	Space    string
-	Access   string // storage: "read" | "read_write"
-	Group    int
-	Binding  int
-	Init     Expr   // module-scope var/const/override initialiser
-	ID       int    // override @id, -1 = none
-	HasType  bool   // print the ": T" annotation
-	Builtin  string // entry-point parameter builtin
-	Location int    // entry-point parameter location (-1 none)
-	Module   bool   // declared at module scope
-	Alias    *Var   // read-only alias of another variable (same name): evaluators follow it
-	UID      int
+	Name      string
+	Kind      VarKind
+	Ty        *Type // store type (var) or value type (let/const/param/override)
+	Space     string
+	Access    string // storage: "read" | "read_write"
+	Group     int
+	Binding   int
+	Init      Expr   // module-scope var/const/override initialiser
+	ID        int    // override @id, -1 = none
+	HasType   bool   // print the ": T" annotation
+	Builtin   string // entry-point parameter builtin
+	Location  int    // entry-point parameter location (-1 none)
+	Module    bool   // declared at module scope
+	Alias     *Var   // read-only alias of another variable (same name): evaluators follow it
+	UID       int
 	ConstInit bool // let whose initialiser is a const-expression (backends may fold through it)
 	// error-injection switches (printer only)
 	DropGroup, DropBinding bool
